@@ -64,7 +64,7 @@ class FaultyComm(kiwipy.LocalCommunicator):
     def broadcast_send(self, body, sender=None, subject=None, correlation_id=None):
         if isinstance(subject, str) and subject.startswith('state_changed'):
             self.n_state += 1
-            if self.fail is not None and self.fail['index'] == self.n_state:
+            if self.fail is not None and self.fail['index'] <= self.n_state < self.fail['index'] + self.fail.get('count', 1):
                 self.failed.append(subject)
                 raise FAULTS[self.fail['exc']]()
             self.state_broadcasts.append((sender, subject))
@@ -95,6 +95,10 @@ def enumerate_cases(tier, scope):
                 for exc in FAULTS:
                     for index in range(1, 7):
                         yield {'program': cat[name], 'schedule': [['settle'], ['rpc', 'pause', 'p'], ['settle'], ['rpc', 'play', None], ['settle']], 'comm': comm, 'mode': 'quiescent', 'controller': 'thread', 'fail': {'index': index, 'exc': exc}}
+                        if index <= 4:
+                            # a broker that stays unavailable: consecutive announcements (all from here on) fail
+                            for count in (2, 99):
+                                yield {'program': cat[name], 'schedule': [['settle'], ['rpc', 'pause', 'p'], ['settle'], ['rpc', 'play', None], ['settle']], 'comm': comm, 'mode': 'quiescent', 'controller': 'thread', 'fail': {'index': index, 'exc': exc, 'count': count}}
         # one of the two subscriptions of the process times out: the other channel keeps working
         import itertools
 
@@ -140,7 +144,7 @@ def _cases(draw, tier):
                 sched.append(['settle'])
     case = {'program': prog, 'schedule': sched, 'comm': draw(st.sampled_from(['bare', 'loop'])), 'mode': mode, 'controller': draw(st.sampled_from(['thread', 'coro']))}
     if draw(st.integers(0, 3)) == 0:
-        case['fail'] = {'index': draw(st.integers(1, 6)), 'exc': draw(st.sampled_from(list(FAULTS)))}
+        case['fail'] = {'index': draw(st.integers(1, 6)), 'exc': draw(st.sampled_from(list(FAULTS))), 'count': draw(st.sampled_from([1, 1, 2, 3, 99]))}
     if mode == 'quiescent' and draw(st.integers(0, 4)) == 0:
         case['sub_fail'] = draw(st.sampled_from(['rpc', 'bcast']))
         chan = 'bcast' if case['sub_fail'] == 'rpc' else 'rpc'
@@ -423,7 +427,7 @@ def execute(case):
             # transitions that happened after close() are invisible to the monitor callback: use sampled states there
             got = [s for _sender, s in a.inner.state_broadcasts]
             failed = a.inner.failed
-            exp_after_fault = [s for i, s in enumerate(expected) if not (case.get('fail') and i + 1 == case['fail']['index'])]
+            exp_after_fault = [s for i, s in enumerate(expected) if not (case.get('fail') and case['fail']['index'] <= i + 1 < case['fail']['index'] + case['fail'].get('count', 1))]
             if failed:
                 classes.append('broadcast-failed:' + case['fail']['exc'])
             if got != (exp_after_fault if failed else expected):
